@@ -6,12 +6,15 @@ ID = "C09"
 DESIGN_REF = "6.9"
 RULE = ("provider part: the C08 history generator in flooding mode (1-3 consumers sending mostly downtime reports, validator powers "
         "and total power changing between blocks, block steps of 1ns, period/2, period-1ns, period, period+1ns, 2*period, replenish "
-        "fractions 0.0001..1.0 via InitGenesis params), slash meter / allowance / replenish candidate observed after every BeginBlock "
+        "fractions 0.0001..1.0 via InitGenesis params; directed/random same-block histories: several consumers report one validator "
+        "within a block, reports for a validator jailed earlier in the block, assigned keys), slash meter / allowance / replenish candidate observed after every BeginBlock "
         "and packet. consumer part: random histories over the real consumer keeper steered by a small simulation so that sends, "
         "bounces, retries at sendTime+delay-1ns/+0/+1ns, send errors, expired client, error acks, unsolicited acks and VSC packets "
         "all occur. non-trivial = a packet was bounced or the meter was replenished after going negative (provider) / a bounced "
         "packet was retried (consumer); distinct = distinct class / send sequences")
 ASSUMPTIONS = [
+    "monitor clause 10 exempts validator states that do not occur on a real chain: tombstoned but not jailed, unbonded with "
+    "last power, a launched consumer without infraction parameters (there the code charges the meter without jailing)",
     "block times are non-decreasing; replenish fraction in [0,1], total power and validator powers >= 0 (params validation, CometBFT); int64 overflow not modelled",
     "IBC delivers at most one acknowledgement per sent packet (needed for 'never drops': an unsolicited handled-ack deletes the queue head in the code too); "
     "the generator also produces unsolicited acks, for which only the correspondence and the per-step clauses are checked",
@@ -21,16 +24,25 @@ TRUSTED_BASE = [
     "modelled: GetSlashMeterAllowance, ReplenishSlashMeter, CheckForSlashMeterReplenishment, meter check and deduction of OnRecvSlashPacket; "
     "consumer PacketSendingPermitted, SendPackets, UpdateSlashRecordOnSend/OnBounce, ClearSlashRecord, DeleteHeadOfPendingPackets, "
     "OnAcknowledgementPacket, QueueSlashPacket, AppendPendingPacket, OnRecvVSCPacket (acks, channel), ApplyCCValidatorChanges",
-    "oracle inputs: block time, staking last total power, effective power of the reported validator, whether the packet reaches the meter "
+    "oracle inputs: block time, staking last total power, the reported validator's staking state (found, jailed, last power; "
+    "GetEffectiveValPower itself is modelled: eff_pow), whether the packet reaches the meter "
     "check (phase / membership: C08), IBC send failures, acknowledgement results",
 ]
 
 
 def gen_provider(rng, tier):
     from props import c08
-    total = 420 if tier == "quick" else 8000
+    total = 340 if tier == "quick" else 8000
+    yield c08.gen_same_block_case(rng, directed=["multi", "extjail", "multi"])
+    for _ in range(90 if tier == "quick" else 2000):
+        yield c08.gen_same_block_case(rng)
     for _ in range(total):
         yield c08.gen_provider_case(rng, flood=True)
+
+
+def project_meter(case, obs):
+    # field 4 (did this packet jail somebody?) is an implementation-only observation used by monitor clause 10
+    return [o[:4] for o in obs]
 
 
 def nontrivial_provider(case, inp, obs):
@@ -183,6 +195,7 @@ PCLAUSES = {1: "slash meter exceeds the allowance after BeginBlock", 2: "allowan
             5: "meter not deducted by exactly the validator's effective power when handled (or changed otherwise)",
             6: "window bound violated: power deducted exceeds meter + replenished allowances + last validator's power",
             7: "meter changed in a BeginBlock in which no replenishment was due (other than the clamp to the allowance)",
+            10: "the slash meter was lowered by a packet that jailed nobody (e.g. charged again for an already jailed validator)",
             99: "observation count differs from the history"}
 CCLAUSES = {1: "a packet was sent while a slash packet is in flight (or outside EndBlock)", 2: "a bounced packet was re-sent before the retry delay elapsed, or something else was sent first",
             3: "packets not sent in queue order / something sent after a slash packet in the same block", 4: "pending queue after sending is not the old queue minus the sent vsc-matured packets",
@@ -207,6 +220,6 @@ def histogram(part, c):
 
 
 PARTS = [
-    Part("meter", "c09", "throttle", gen_provider, nontrivial=nontrivial_provider, describe=describe_provider),
+    Part("meter", "c09", "throttle", gen_provider, project=project_meter, nontrivial=nontrivial_provider, describe=describe_provider),
     Part("consumer", "c09", "throttle", gen_consumer, go_test="TestConsumer", nontrivial=nontrivial_consumer, describe=describe_consumer),
 ]
